@@ -159,6 +159,22 @@ func (x *Exec) call(s *State, in ssa.Instruction, c *ssa.CallCommon, result ssa.
 	if c.IsInvoke() {
 		nfree = 0
 	}
+	// 0. closure constructors: the callee's body is "return func(...){...}" over
+	// its own parameters; the result is that closure with the arguments bound
+	// (checked on the callee's SSA at every call, so the caller sees the real
+	// closure and the closure's own contract applies where it is invoked)
+	if con := x.v.db.Funcs[key]; con != nil && con.ReturnsClosure && fn != nil {
+		con.Used = true
+		v, why := closureCtor(x, s, fn, args)
+		o := x.ob("closure", site, "callee "+key+" only builds and returns one closure over its parameters"+why, in)
+		if why != "" {
+			s.check(o, "false")
+			return false
+		}
+		s.check(o, "true")
+		x.setResult(s, result, v)
+		return true
+	}
 	// 1. Go-coded models
 	if m, ok := models[key]; ok {
 		r, cont := m(x, s, in, args[nfree:], c)
@@ -841,4 +857,105 @@ func (x *Exec) wants(c Clause) bool {
 	}
 	_, ok := x.con.Options[c.Label[3:k]]
 	return ok
+}
+
+// closureCtor recognises a function whose body is a single block that only
+// spills its parameters into cells (go/ssa captures by reference), makes one
+// closure over those cells (or over parameters) and returns it. The caller
+// then holds that closure with its arguments bound. The second result says why
+// the shape does not hold ("" when it does).
+func closureCtor(x *Exec, s *State, fn *ssa.Function, args []Value) (Value, string) {
+	if len(fn.Blocks) != 1 {
+		return Value{}, ": the body has control flow"
+	}
+	paramIdx := func(v ssa.Value) int {
+		for i, q := range fn.Params {
+			if ssa.Value(q) == v {
+				return i
+			}
+		}
+		return -1
+	}
+	cellOf := map[*ssa.Alloc]int{} // cell -> parameter stored in it
+	var mc *ssa.MakeClosure
+	returned := false
+	// a function literal that captures nothing is a plain function value
+	var plain *ssa.Function
+	var plainT types.Type
+	var plainV ssa.Value
+	for _, in := range fn.Blocks[0].Instrs {
+		switch t := in.(type) {
+		case *ssa.DebugRef:
+		case *ssa.ChangeType:
+			f, ok := t.X.(*ssa.Function)
+			if !ok || plain != nil || f.Parent() != fn {
+				return Value{}, fmt.Sprintf(": the body does more than build a closure (%T)", in)
+			}
+			plain, plainT, plainV = f, t.Type(), t
+		case *ssa.Alloc:
+			cellOf[t] = -1
+		case *ssa.Store:
+			a, isCell := t.Addr.(*ssa.Alloc)
+			k := paramIdx(t.Val)
+			if !isCell || k < 0 || cellOf[a] != -1 || mc != nil {
+				return Value{}, ": the body does more than spill its parameters"
+			}
+			cellOf[a] = k
+		case *ssa.MakeClosure:
+			if mc != nil {
+				return Value{}, ": more than one closure is built"
+			}
+			mc = t
+		case *ssa.Return:
+			if len(t.Results) == 1 && mc == nil {
+				if f, ok := t.Results[0].(*ssa.Function); ok && plain == nil && f.Parent() == fn {
+					plain, plainT, plainV = f, f.Type(), f
+				}
+				if plain != nil && t.Results[0] == plainV {
+					if s == nil {
+						return Value{}, ""
+					}
+					return Value{T: plainT, S: x.fresh("closure", sInt), Fn: &FnVal{Name: funcKey(plain), Fn: plain}}, ""
+				}
+			}
+			if mc == nil || len(t.Results) != 1 || t.Results[0] != ssa.Value(mc) {
+				return Value{}, ": the result is not the closure"
+			}
+			returned = true
+		default:
+			return Value{}, fmt.Sprintf(": the body does more than build a closure (%T)", in)
+		}
+	}
+	if mc == nil || !returned {
+		return Value{}, ": no closure is built and returned"
+	}
+	var bs []Value
+	for _, b := range mc.Bindings {
+		if a, ok := b.(*ssa.Alloc); ok {
+			k, known := cellOf[a]
+			if !known || k < 0 || k >= len(args) {
+				return Value{}, ": a captured variable does not hold a parameter"
+			}
+			if s == nil { // shape check only
+				continue
+			}
+			et := a.Type().Underlying().(*types.Pointer).Elem()
+			p := s.allocObj(et)
+			p.T = a.Type()
+			x.freshRef[p.S] = true
+			s.store(p, args[k])
+			bs = append(bs, p)
+			continue
+		}
+		k := paramIdx(b)
+		if k < 0 || k >= len(args) {
+			return Value{}, ": a captured variable is not a parameter"
+		}
+		bs = append(bs, args[k])
+	}
+	cf := mc.Fn.(*ssa.Function)
+	if s == nil {
+		return Value{}, ""
+	}
+	return Value{T: mc.Type(), S: x.fresh("closure", sInt), Fn: &FnVal{Name: funcKey(cf), Fn: cf, Bindings: bs}}, ""
 }
